@@ -1965,7 +1965,19 @@ class Runner:
             for st in loaded:
                 cur = new[tab].get(st[0])
                 if cur is not None and cur[svi] < st[svi]:
-                    self.fail(name.replace(' ', '-') + '-version-regressed:reload',
+                    sig = name.replace(' ', '-') + '-version-regressed:reload'
+                    if tab == 2 and ctx_idx != cap_idx and not cap.snap.cstates:
+                        # the context states came from a GetContextStates answer of a LATER moment than the GetMdib answer.
+                        # History class: a buffered (older) description modification report removes the state (DELETE of its
+                        # descriptor / UPDATE part of its context descriptor that does not list it yet), a buffered older
+                        # context report creates it again with its first StateVersion.
+                        removed = any(
+                            (m == 2 and d[0] == st[1]) or (m == 1 and d[2] == 5 and d[0] == st[1] and st[0] not in {c[0] for c in cs})
+                            for i in during if hist.reports[i].rk == 6 and hist.reports[i].vg[0] > cap.snap.vg[0]
+                            for m, d, _, cs in hist.reports[i].parts)
+                        if removed:
+                            sig += ':later-GetContextStates-answer-then-buffered-removal-and-recreation'
+                    self.fail(sig,
                               f'{where}: {name} #{st[0]} was loaded with StateVersion {st[svi]}, after the replay of the '
                               f'buffered notifications it has {cur[svi]}')
         # which in-flight notifications have to be applied: same SequenceId, newer than the snapshot
